@@ -151,8 +151,8 @@ def r5(F, rep):
                  "the harmonic-walls restraint (lower/upper walls, their flags and force constants)")
 
 
-def r6(F, rep):
-    rep.rule("C06-R6", "accumulated work is collected only while the schedule runs: in both update_acc_work() siblings "
+def r6(F, rep, rid="C06-R6"):
+    rep.rule(rid, "accumulated work is collected only while the schedule runs: in both update_acc_work() siblings "
                        "(moving centres, moving force constant) the `acc_work +=` site is gated by step_relative() > 0, by the "
                        "schedule window step_absolute() - first_step <= target_nsteps, by outputAccumulatedWork and by the "
                        "restraint's own change flag -- the same set of gates in both")
@@ -162,7 +162,7 @@ def r6(F, rep):
         res = X.const_locals(f)
         adds = [w for w, t in lvalue_writes(f) if X.key(t, f) == "this.acc_work" and w.get("op") == "+="]
         if not adds:
-            rep.add("C06-R6", "%s|present" % q, f.loc(), "%s never adds to acc_work" % q, False, func=q)
+            rep.add(rid, "%s|present" % q, f.loc(), "%s never adds to acc_work" % q, False, func=q)
             continue
         facts, _ = C.guard_facts(f, adds[0], res)
         gates = set()
@@ -178,11 +178,11 @@ def r6(F, rep):
                 gates.add("change flag")
         sib[q] = gates
         want = {"step_relative() > 0", "schedule window", "outputAccumulatedWork", "change flag"}
-        rep.add("C06-R6", "%s|gates" % q, f.loc(adds[0]), "%s accumulates work under: %s" % (q, sorted(gates)), gates == want,
+        rep.add(rid, "%s|gates" % q, f.loc(adds[0]), "%s accumulates work under: %s" % (q, sorted(gates)), gates == want,
                 detail="missing gate(s) %s: work would keep accumulating after the parameter stopped changing, or on the repeated first step" % sorted(want - gates), func=q)
     if len(sib) == 2:
         a, b = list(sib.values())
-        rep.add("C06-R6", "siblings-agree", "", "both siblings use the same gates", a == b, func="colvarbias_restraint_*_moving::update_acc_work")
+        rep.add(rid, "siblings-agree", "", "both siblings use the same gates", a == b, func="colvarbias_restraint_*_moving::update_acc_work")
 
 
 def _factors(n, f, res, num, den, inv=False):
